@@ -52,6 +52,12 @@ fn check_id(id: u32, out: &mut CaseOut) {
         }),
         Err(e) => out.violate("C20", "parse_canonical_err", format!("try_from('{exp}') = Err({e})")),
     }
+    // rendering with a width / alignment in the format spec still shows the complete seven-digit form
+    if id % 9 == 0 || id > 9_999_990 {
+        for (spec, got) in [("{:4}", format!("{t:4}")), ("{:8}", format!("{t:8}")), ("{:<14}", format!("{t:<14}")), ("{:>14}", format!("{t:>14}")), ("{:^12}", format!("{t:^12}"))] {
+            out.check(got.trim() == exp, "C20", "display_with_format_spec", || format!("id {id} rendered with {spec} gives '{got}', expected '{exp}' (possibly padded with blanks)"));
+        }
+    }
     // parsing is a function of the text alone: texts that EXTEND the one just parsed (one more digit, a
     // blank, a letter) are judged by the grammar, whatever was parsed before; then the id again
     if id % 5 == 0 || id > 9_999_990 {
@@ -150,7 +156,22 @@ fn check_str(s: &str, out: &mut CaseOut) {
                     Err(p) => out.violate("C20", "from_string_panics_on_wellformed_text", format!("From<String> / PartialEq<str> on {s:?} panicked: {} at {}", p.message, p.location)),
                 }
             }
-            (Expect::Err, Err(_)) => out.comparisons += 1,
+            (Expect::Err, Err(_)) => {
+                out.comparisons += 1;
+                // the other routes are documented to refuse such text by panicking; what they must never do
+                // is hand out an id or call the text equal to one
+                if s.len() >= 3 && s.is_char_boundary(3) {
+                    let other = guard(|| HpoTermId::from(s.to_string()).as_u32());
+                    if let Ok(v) = other {
+                        out.violate("C20", "from_string_accepts_garbage", format!("HpoTermId::from({s:?}.to_string()) = {v} although the text is no id (try_from refuses it)"));
+                    }
+                    for probe in [0u32, 1, 118] {
+                        if let Ok(true) = guard(|| HpoTermId::from_u32(probe) == s) {
+                            out.violate("C20", "partial_eq_accepts_garbage", format!("HpoTermId({probe}) == {s:?} is true"));
+                        }
+                    }
+                }
+            }
             (Expect::Ok(v), Err(e)) => out.violate("C20", &format!("parse_rejects_number/{class}"), format!("try_from({s:?}) = Err({e}), expected Ok({v})")),
             (Expect::Err, Ok(g)) => out.violate("C20", &format!("parse_accepts_garbage/{class}"), format!("try_from({s:?}) = Ok({g}), expected an error")),
         },
@@ -299,6 +320,13 @@ impl Monitor for C20 {
                 ];
                 for k in 0..40u64 {
                     v.push(format!("HP:{}", u64::from(u32::MAX) - 20 + k));
+                }
+                // three-byte prefixes that tools like to "clean up": byte order mark, zero-width and other
+                // special blanks, white space, control characters – the prefix is skipped, whatever it is
+                for prefix in ["\u{feff}", "\u{200b}", "\u{2028}", "\u{3000}", "\u{a0}x", "x\u{a0}", "   ", "\t\t\t", "\n\n\n", "\r\n ", "\u{0}\u{0}\u{0}", "\u{7f}\u{1b}\u{8}", "HP\u{0}", "\\\\:"] {
+                    for tail in ["7", "118", "0000118", "4294967295", "4294967296", "HP:0000118", "12:3456789", "", " 7", "7 "] {
+                        v.push(format!("{prefix}{tail}"));
+                    }
                 }
                 for s in &v {
                     check_str(s, &mut out);
